@@ -225,7 +225,7 @@ func runMigration(c *core.Ctx) {
 	})
 	// LOOKUP: must-pass-through in getTypeDetails
 	var lookup *ssa.Lookup
-	sx.EachInstr(gtd, func(in ssa.Instruction) {
+	regionOf(gtd).each(func(in ssa.Instruction) {
 		if lk, ok := in.(*ssa.Lookup); ok && isGlobalLoad(lk.X, "backwardRegistry") {
 			lookup = lk
 		}
@@ -235,6 +235,21 @@ func runMigration(c *core.Ctx) {
 	} else {
 		e := originEngine(c)
 		nRet := 0
+		// the lookup may sit in a helper of getTypeDetails: then the helper's call stands for it, provided the lookup
+		// lies on every path through the helper
+		domBlock := lookup.Block()
+		if h := lookup.Parent(); h != gtd {
+			greg := regionOf(gtd)
+			through := true
+			for _, hr := range sx.Returns(h) {
+				if !lookup.Block().Dominates(hr.Block()) {
+					through = false
+				}
+			}
+			if sites := greg.sites[h]; through && len(sites) == 1 && sites[0].Parent() == gtd {
+				domBlock = sites[0].Block()
+			}
+		}
 		for _, r := range sx.Returns(gtd) {
 			// returns of the opaque arms are stored names
 			isOpaque := false
@@ -247,7 +262,7 @@ func runMigration(c *core.Ctx) {
 				continue
 			}
 			nRet++
-			c.Check(lookup.Block().Dominates(r.Block()), "errbase.getTypeDetails: every computed family name passes through the registry lookup", r.Pos(), "the lookup dominates this return",
+			c.Check(domBlock.Parent() == gtd && domBlock.Dominates(r.Block()), "errbase.getTypeDetails: every computed family name passes through the registry lookup", r.Pos(), "the lookup dominates this return",
 				"a return of getTypeDetails is reachable without consulting backwardRegistry (cache / shortcut): a migration registered after the first use of the type is never seen")
 		}
 		c.Min("non-opaque returns of getTypeDetails", nRet, 2)
